@@ -1,6 +1,6 @@
 (* Executable interface of the engine models for the correspondence checks. *)
 From Coq Require Import ZArith List Bool.
-Require Import PyIR.Base.Result PyIR.IW.IW PyIR.Engine.Match PyIR.Engine.Render PyIR.Engine.Parse.
+Require Import PyIR.Base.Result PyIR.IW.IW PyIR.Engine.Match PyIR.Engine.Render PyIR.Engine.Parse PyIR.Engine.ParseM.
 Import ListNotations.
 Open Scope Z_scope.
 
@@ -10,6 +10,11 @@ Definition enc_bits (l : list bool) : list Z := map (fun b : bool => if b then 1
 Definition run_parseH (c : Z * list Z * list Z * list (Z * Z) * list Z) : list Z :=
   let '(tol, li, lo, t, code) := c in
   enc_result (fun p => Z.of_nat (length (p_bits p)) :: enc_bits (p_bits p) ++ p_norm p) (parseH tol li lo t code).
+
+(* the same for any pair table: the stream-encoding classification of the source decides between the two data loops *)
+Definition run_parseC (c : Z * list Z * list Z * list (Z * Z) * list Z) : list Z :=
+  let '(tol, li, lo, t, code) := c in
+  enc_result (fun p => Z.of_nat (length (p_bits p)) :: enc_bits (p_bits p) ++ p_norm p) (parseC tol li lo t code).
 
 (* (lead_in, lead_out, body) -> frame *)
 Definition run_build_packet (c : list Z * list Z * list Z) : list Z :=
